@@ -21,7 +21,7 @@ from symex import show, walk
 EXPLANATION = __doc__
 TRUSTED = ["rustc / extractor", "sha1 and num-bigint implement SHA-1 / integer arithmetic; BigInt::modpow returns the non-negative residue", "a linear scan with exit test s[i] != 0 counts the leading zero bytes", "SRP-6 algebra"]
 NOT_DECIDED = ["correctness of sha1 / num-bigint", "the SRP-6 and linear-scan lemmas themselves"]
-FLOORS = {"transcript": 6, "formula": 5, "client-group": 4, "constant": 8, "interleave": 7}
+FLOORS = {"transcript": 6, "formula": 5, "client-group": 4, "constant": 8, "interleave": 7, "carrier": 10}
 
 N_BE = bytes.fromhex("894B645E89E1535BBDAD5B8B290650530801B18EBFBF5E8FAB3C82872A3E9BB7")
 G = 7
@@ -544,6 +544,10 @@ def transcripts(ctx, rep):
     ]
     for fn, want, why in table:
         se = ctx.wrap.run(fn)
+        if se is None and fn == CLIENT_FNS[2]:
+            cv = client_view(ctx)
+            rep.check(cv["M1"], "transcript", CLIENT_ROOT, "M1:sha1", "end to end: client M1 = %s" % cv.get("M1_desc", "?")[:200], "end to end: the client's M1 is not H(xor_hash(N, g) | H(U) | salt | A | B | K) over the constructor's own values: %s" % cv.get("M1_desc", cv["why"])[:300], cv["loc"])
+            continue
         if se is None:
             rep.violation("transcript", fn, "anchor", "function not found")
             continue
@@ -733,6 +737,12 @@ def client_group(ctx, rep):
     X = only("srp_internal::calculate_x")
     U = only("srp_internal::calculate_u")
     KK = only("srp_internal::calculate_interleaved")
+    if not all([A, S_, M]) and all([X, U, KK]) and not all(ctx.has(f) for f in CLIENT_FNS):
+        # the client-only internals were folded into something else: decided end to end
+        cv = client_view(ctx)
+        rep.check(cv["operands"], "client-group", root, "announced-operands", "end to end: A, S and M1 are computed with (generator = arg3, prime = arg4)", "end to end: some client computation does not use the announced generator / prime parameters: " + cv["why"], se.body.loc())
+        rep.check(cv["wiring"] and cv["ok"], "client-group", root, "wiring", "end to end: x(U,P,salt); u(A,B); S(B,x,a,u,g,N); K = interleave(S); M1(U,K,A,B,salt,N,g)", "end to end: client wiring differs from the protocol: " + cv["why"], se.body.loc())
+        return
     if not all([A, S_, M, X, U, KK]):
         rep.violation("client-group", root, "wiring", "client wiring calls not found exactly once each", se.body.loc())
         return
@@ -748,6 +758,103 @@ def client_group(ctx, rep):
     rep.check(wiring, "client-group", root, "wiring", "x(U,P,salt); u(A,B); S(B,x,a,u,g,N); K = interleave(S); M1(U,K,A,B,salt,N,g)", "client wiring differs from the protocol (see DESIGN C03)", se.body.loc())
 
 
+CLIENT_FNS = ("srp_internal_client::calculate_client_public_key", "srp_internal_client::calculate_client_S", "srp_internal_client::calculate_client_proof_with_custom_value")
+CLIENT_ROOT = "client::SrpClientChallenge::new"
+_VIEW = {}
+
+
+def client_view(ctx):
+    """The client's handshake computations decided END TO END on the public constructor
+    `SrpClientChallenge::new(U, P, g, N, B, salt)` instead of function by function: the three
+    client-only internals (if they still exist as functions), the big-integer wrapper and every
+    helper that did not exist on the pinned tree are looked through, and the fields of the
+    returned object are compared with the protocol instantiated at the constructor's parameters:
+        A  = client_try_from_bigint(g^a mod N, N)                (g = arg3, N = arg4)
+        K  = interleave(pad32((B - k g^x)^(a + u x) mod N))      (x = calculate_x(U, P, salt), u = calculate_u(A, B))
+        M1 = H(xor_hash(N, g) | H(U) | salt | A | B | K)
+    This is what the per-function formula / transcript / wiring obligations add up to; it is
+    used when a refactoring folded those internals into something else (methods of a private
+    `SrpGroup`, say), so that there is no function left to hang the obligations on."""
+    key = id(ctx.fb)
+    if key in _VIEW:
+        return _VIEW[key][1]
+    from symex import Engine, wrapper_policy
+    fb = ctx.fb
+    wp = wrapper_policy(fb)
+    bigpol = lambda path: path.startswith("bigint::") or path.startswith("<bigint::") or path.startswith("primes::") or path.startswith("<primes::") or path.endswith("::as_bigint")
+    eng = Engine(fb, inline=lambda path, depth: bigpol(path) or path in CLIENT_FNS or ctx.fresh_pure(path, depth) or wp(path, depth))
+    v = {"ok": False, "why": "constructor not found", "A": False, "S": False, "M1": False, "wiring": False, "operands": False, "m1_b": None, "loc": None}
+    _VIEW[key] = (ctx.fb, v)
+    se = eng.run(CLIENT_ROOT)
+    if se is None:
+        return v
+    v["loc"] = se.body.loc()
+    r = canon(ctx, se, se.ret)
+    fs = fb.adt_fields("client::SrpClientChallenge") or []
+    if not (r[0] == "agg" and r[2] == "client::SrpClientChallenge" and len(r[4]) == len(fs)):
+        v["why"] = "the constructor does not return one SrpClientChallenge aggregate"
+        return v
+    by_ty = {}
+    for i, f in enumerate(fs):
+        by_ty.setdefault(fb.ty(f["ty"]).path, []).append(i)
+    need = {"U": "normalized_string::NormalizedString", "M1": "key::Proof", "A": "key::PublicKey", "K": "key::SessionKey"}
+    if any(len(by_ty.get(t, [])) != 1 for t in need.values()):
+        v["why"] = "fields of SrpClientChallenge are not one each of NormalizedString / Proof / PublicKey / SessionKey"
+        return v
+    U_t, M_t, A_t, K_t = (r[4][by_ty[need[x]][0]] for x in ("U", "M1", "A", "K"))
+    k = ("small", K)
+    # ---- A
+    a = strip(A_t)
+    inner = strip(a[2][0]) if util.is_call(a) and a[1].split("::")[-1] in ("expect", "unwrap") and a[2] else None
+    a_leaf = None
+    if inner is not None and util.is_call(inner, "key::PublicKey::client_try_from_bigint") and len(inner[2]) == 2:
+        fA = bigf(ctx, se, inner[2][0])
+        if fA[0] == "modpow" and fA[1] == ("small", P(3)) and fA[3] == I(P(4)) and fA[2][0] == "int" and fA[2][1][0] == "call" and not fA[2][1][2]:
+            a_leaf = fA[2]
+            v["A"] = canon(ctx, se, inner[2][1]) == ("param", 4)
+        v["A_desc"] = show_f(fA)
+    # ---- K = interleave(S)
+    kk = strip(K_t)
+    if a_leaf is not None and util.is_call(kk, "srp_internal::calculate_interleaved") and len(kk[2]) == 1:
+        ints = {x for x in find_bigint(ctx, se, kk[2][0])}
+        if len(ints) == 1:
+            fS = bigf(ctx, se, next(iter(ints)))
+            X = ("call", "srp_internal::calculate_x", (P(1), P(2), P(6)))
+            us = [t for t in walk(kk) if util.is_call(t, "srp_internal::calculate_u")]
+            xs = [t for t in walk(kk) if util.is_call(t, "srp_internal::calculate_x")]
+            if len(set(us)) == 1 and len(set(xs)) == 1:
+                u_t = us[0]
+                Uf = bytes_of(ctx, se, u_t)
+                want = ("modpow", ("sub", I(P(5)), mul(k, ("modpow", ("small", P(3)), I(X), I(P(4))))), add(a_leaf, mul(I(Uf), I(X))), I(P(4)))
+                v["S"] = fS == want
+                v["S_desc"] = show_f(fS)
+                v["wiring"] = tuple(canon(ctx, se, y) for y in u_t[2]) == (canon(ctx, se, A_t), ("param", 5)) and canon(ctx, se, U_t) == ("param", 1)
+                # the padded export of S: a zeroed 32-byte array with the magnitude bytes in front
+                v["S_pad"] = any(t[0] == "after" and strip(t[3])[0] == "repeat" and strip(t[3])[1][:2] == ("int", 0) and strip(t[3])[2] == 32 for t in walk(strip(kk[2][0])))
+    # ---- M1
+    b = util.bexpr(ctx, se, M_t)
+    v["m1_b"] = b
+    xor = ("call", "srp_internal::calculate_xor_hash", (P(4), P(3)))
+    want_m = ("H", (xor, ("H", (("text", P(1)),)), P(6), util.bexpr(ctx, se, A_t), P(5), util.bexpr(ctx, se, K_t)))
+
+    def unfield(x):
+        # the hash wrapper's only field (`.0`) is the digest itself
+        if isinstance(x, tuple) and x and x[0] == "field" and len(x) == 3 and x[2] == 0:
+            return unfield(x[1])
+        if isinstance(x, tuple):
+            return tuple(unfield(y) for y in x)
+        return x
+
+    v["M1"] = unfield(util.cb(b)) == unfield(util.cb(want_m))
+    v["M1_desc"] = show_b(b)
+    draws = {t for t in walk(strip(r)) if util.is_call(t, "key::PrivateKey::randomized")}
+    v["a_single_draw"] = bool(v["A"] and v["S"] and a_leaf == I(("call", "key::PrivateKey::randomized", ())) and len(draws) == 1)
+    v["operands"] = v["A"] and v["S"] and v["M1"]       # g = arg3 and N = arg4 are the only group values in the three formulas
+    v["ok"] = all(v[x] for x in ("A", "S", "M1", "wiring")) and bool(v.get("S_pad"))
+    v["why"] = "A = %s; S = %s; M1 = %s" % (v.get("A_desc", "?")[:80], v.get("S_desc", "?")[:120], v.get("M1_desc", "?")[:120])
+    return v
+
+
 def formulas(ctx, rep):
     Nb = I(("const", N_BE[::-1]))
     g = ("small", G)
@@ -758,13 +865,28 @@ def formulas(ctx, rep):
                  ("rem", add(mul(k, I(P(1))), ("modpow", g, I(P(2)), Nb)), Nb), "key::PublicKey::try_from_bigint", "B = (k*v + g^b) mod N")
     formula_rule(ctx, rep, "srp_internal::calculate_S",
                  ("modpow", mul(I(P(1)), ("modpow", I(P(2)), I(P(3)), Nb)), I(P(4)), Nb), "<key::SKey as std::convert::From<bigint::Integer>>::from", "S = (A * v^u)^b mod N")
-    formula_rule(ctx, rep, "srp_internal_client::calculate_client_public_key",
-                 ("modpow", ("small", P(2)), I(P(1)), I(P(3))), "key::PublicKey::client_try_from_bigint", "A = g^a mod N (announced g, N)")
-    formula_rule(ctx, rep, "srp_internal_client::calculate_client_S",
-                 ("modpow", ("sub", I(P(1)), mul(k, ("modpow", ("small", P(5)), I(P(2)), I(P(6))))), add(I(P(3)), mul(I(P(4)), I(P(2)))), I(P(6))), None, "S = (B - k*g^x)^(a + u*x) mod N (announced g, N)")
+    if ctx.has("srp_internal_client::calculate_client_public_key"):
+        formula_rule(ctx, rep, "srp_internal_client::calculate_client_public_key",
+                     ("modpow", ("small", P(2)), I(P(1)), I(P(3))), "key::PublicKey::client_try_from_bigint", "A = g^a mod N (announced g, N)")
+    else:
+        cv = client_view(ctx)
+        rep.check(cv["A"], "formula", CLIENT_ROOT, "A:srp6", "end to end: A = client_try_from_bigint(%s, arg4)" % cv.get("A_desc", "?"), "end to end: the client's A is not client_try_from_bigint(g^a mod N, N) over the announced g = arg3, N = arg4: %s" % cv.get("A_desc", cv["why"]), cv["loc"])
+    if ctx.has("srp_internal_client::calculate_client_S"):
+        formula_rule(ctx, rep, "srp_internal_client::calculate_client_S",
+                     ("modpow", ("sub", I(P(1)), mul(k, ("modpow", ("small", P(5)), I(P(2)), I(P(6))))), add(I(P(3)), mul(I(P(4)), I(P(2)))), I(P(6))), None, "S = (B - k*g^x)^(a + u*x) mod N (announced g, N)")
+    else:
+        cv = client_view(ctx)
+        rep.check(cv["S"] and bool(cv.get("S_pad")), "formula", CLIENT_ROOT, "S:srp6", "end to end: S = %s, exported as 32 zero-padded bytes" % cv.get("S_desc", "?"), "end to end: the client's S is not pad32((B - k*g^x)^(a + u*x) mod N) over the announced group: %s" % cv.get("S_desc", cv["why"]), cv["loc"])
+
+
+CARRIERS = ("server::SrpVerifier", "server::SrpProof", "server::SrpServer", "client::SrpClientChallenge", "client::SrpClient", "client::SrpClientReconnection",
+            "key::PublicKey", "key::PrivateKey", "key::Salt", "key::Verifier", "key::SessionKey", "key::Proof", "key::SKey", "key::Sha1Hash", "key::ReconnectData",
+            "normalized_string::NormalizedString", "primes::LargeSafePrime", "primes::Generator", "bigint::Integer")
 
 
 def check(ctx, rep):
+    # every handshake value is what was computed - also in a copy of the object that carries it
+    util.clone_fidelity(ctx, rep, "carrier", CARRIERS)
     transcripts(ctx, rep)
     formulas(ctx, rep)
     client_group(ctx, rep)
